@@ -27,6 +27,7 @@ Components
 """
 from __future__ import annotations
 
+import copy
 import json
 import os
 import random
@@ -45,7 +46,9 @@ RULE = ("seeded structured generators: select — 1..6 agent ids (pool with non-
         "batch — 1..6 tasks, per-task scripts with 0..4 log records over identity/non-identity streams, payload pads 1 B..100 kB, "
         "deltas on own (contract) or foreign (off-contract) graphs, staging limits 1, around each record estimate, 95..415, "
         "multiples of the largest estimate, half the total, unlimited; CI normalisation on/off; worker limits 0..8 and gate flags; "
-        "a generated finishing order for the compute phases; turn ids of every shape (int, negative, '7', '007', non-numeric, empty string); "
+        "scripted turns that REUSE one payload dict across all their emits (cleared/refilled in between, mutated after the last emit; nested list/dict "
+        "values fresh per emit), CI on and off, identity and non-identity streams; the scripted apply is non-idempotent (version bump, additive deltas) and records "
+        "every hand-off with the identity of the task whose approved batch it received; a generated finishing order for the compute phases; turn ids of every shape (int, negative, '7', '007', non-numeric, empty string); "
         "gate — all 72 rows of the gate decision table every run; history — 2..3 batches per process history with injected aborts (apply raises, turn raises, tiny limit).  A case is non-trivial when it hits a non-default branch tag "
         "(backpressure_flush, overlap_skipped, worker_cap, retry_raises, off_contract, multi_record_file, big_payload, ...); distinct by canonical JSON")
 ASSUMPTIONS = [
@@ -58,6 +61,8 @@ ASSUMPTIONS = [
     "every line untouched (type-strict: file bytes are compared); buffers that return turn ids DIFFERENT from the batch ctx's (off-contract stream) use integer ids only "
     "(the `(1, str(tid), …)` branch of _sort_turn_buffers is not modelled); perf.* flags are booleans (perf.enabled may be absent) and max_workers an integer",
     "payload values are opaque tokens carrying len(str(v)) / truthiness (C16 record model); log file names have no directory part",
+    "a turn may reuse and mutate the TOP-LEVEL payload dict between emits; in-place mutation of a nested container after it was emitted is outside the stream "
+    "(the capture copy `dict(record)` is shallow, so such a turn would differ from the write-through path on the unchanged tree as well)",
     "compute phases are pure functions of the read-only snapshot (the real driver runs them in a plain for-loop; the finishing-order stream runs the real "
     "_run_turn_compute in threads forced to finish in a generated order and hands the buffers to the driver by task)",
 ]
@@ -393,6 +398,7 @@ class World:
         self.staging_calls = 0
         self.dry_calls = 0
         self.full_calls = 0
+        self.apply_trace: List[list] = []    # [task id, deltas] per apply_changes call, in call order
 
     def set_batch(self, case: dict, limit: int, logdir: Path) -> None:
         self.case, self.limit, self.logdir = case, limit, logdir
@@ -400,6 +406,7 @@ class World:
         os.environ["CLEMATIS_LOGS_DIR"] = str(logdir)
         self.computed = []
         self.staging_calls = self.dry_calls = self.full_calls = 0
+        self.apply_trace = []
 
     def path_taken(self) -> dict:
         return {"path": "batch" if self.staging_calls else "sequential", "staging_calls": self.staging_calls,
@@ -424,6 +431,9 @@ class World:
 
         def apply_changes(ctx, state, t4):
             ds = list(getattr(t4, "approved_deltas", []) or [])
+            ident = [g for g, _ in ds if isinstance(g, str) and g.startswith("__task__:")]
+            ds = [d for d in ds if not (isinstance(d[0], str) and d[0].startswith("__task__:"))]
+            world.apply_trace.append([ident[0][9:] if ident else "?", [list(d) for d in ds if d[0] != "__raise__"]])
             if any(g == "__raise__" for g, _ in ds):
                 raise RigAbort("apply")
             for g, inc in ds:
@@ -448,17 +458,29 @@ class World:
                 # off-contract script: the buffer carries its own (turn_id, slice_idx)
                 ctx.turn_id = sc["turn"]
                 ctx.slice_idx = sc["slice"]
+            scratch: Dict[str, Any] = {}
             for path, fields in sc["logs"]:
-                rec = dict(expand_fields(fields))
+                if sc.get("reuse"):
+                    # ONE payload dict for every line of the turn, cleared and refilled between emits (legal on the
+                    # write-through path: each line is serialised when emitted); nested containers are fresh per emit
+                    rec = scratch
+                    rec.clear()
+                else:
+                    rec = {}
+                rec.update((k, copy.deepcopy(v)) for k, v in expand_fields(fields))
                 rec["turn"] = ctx.turn_id
                 rec["val"] = val
                 append_jsonl(path, rec)
+            if sc.get("reuse"):
+                scratch.clear()
+                scratch["stale"] = "payload dict mutated after its last emit"
             line = f"{sc['line']}:{val}"
             with world.lock:
                 world.computed.append((aid, text))
             if sc.get("raise_compute"):
                 raise RigAbort("compute")
-            deltas = [tuple(d) for d in sc["deltas"]] + ([("__raise__", 0)] if sc.get("raise_apply") else [])
+            # the approved batch carries its task's identity so that the scripted apply can count hand-offs per task
+            deltas = [tuple(d) for d in sc["deltas"]] + ([("__raise__", 0)] if sc.get("raise_apply") else []) + [(f"__task__:{aid}/{text}", 0)]
             if dry:
                 ctx._dryrun_t4 = SNS(approved_deltas=deltas)
                 ctx._dryrun_utter = line
@@ -584,6 +606,7 @@ def run_real(case: dict, mode: str) -> dict:
                 err = f"abort:{e}"
             out = observe(state, res, d, err)
             out.update(w.path_taken())
+            out["applies"] = [list(x) for x in w.apply_trace]
             par_on = bool(ctx.cfg["perf"]["parallel"]["enabled"] and ctx.cfg["perf"]["parallel"]["agents"] and case["mw"] > 1)
             out["computed"] = [list(t) for t in (asked if (kind == "perm" and par_on) else w.computed)]
             return out
@@ -619,6 +642,19 @@ def contract_ok(case: dict, computed: List[list]) -> bool:
 
 def key_const(case: dict, computed: List[list]) -> bool:
     return all(script_of(case, a, t)["turn"] == case["turn"] and script_of(case, a, t)["slice"] == case["slice"] for a, t in computed)
+
+
+def apply_once(run: dict) -> Optional[str]:
+    """C10_batch_applies_each_once on an observed run: no task's approved batch is handed to apply twice; when the
+    driver finishes every executed task's batch was handed over exactly once, in commit order."""
+    ids = [i for i, _ in run["applies"]]
+    dup = sorted({i for i in ids if ids.count(i) > 1})
+    if dup:
+        return f"approved batch handed to apply more than once for {dup}"
+    want = [f"{a}/{t}" for a, t in run["computed"]]
+    if run["ok"] and len(want) == len(set(want)) and sorted(ids) != sorted(want):
+        return f"finished, but apply was called for {ids} while the executed tasks are {want}"
+    return None
 
 
 def max_record_estimate(unl: dict) -> Optional[int]:
@@ -674,13 +710,16 @@ class BatchComp(Component):
                     fields.append(["now", "2026-01-01T00:00:00Z"])
                 if rng.random() < 0.15:
                     fields.append(["agent", aid])
+                if rng.random() < 0.2:
+                    fields.append(rng.choice([["tags", [k, "x"]], ["meta", {"k": rec_id}], ["ids", []], ["stage", p[:2]]]))
                 rng.shuffle(fields)
                 logs.append([p, fields])
             reads = [g for g in own if rng.random() < 0.8]
             deltas = [[g, rng.choice([1, 2, -1, 10])] for g in own if rng.random() < 0.7]
             if deltas and rng.random() < 0.2:
                 deltas.append([deltas[0][0], 5])
-            sc = {"agent": aid, "text": text, "turn": turn, "slice": sl, "reads": reads, "logs": logs, "deltas": deltas, "line": f"L{k}{aid}"}
+            sc = {"agent": aid, "text": text, "turn": turn, "slice": sl, "reads": reads, "logs": logs, "deltas": deltas, "line": f"L{k}{aid}",
+                  "reuse": rng.random() < 0.4}
             scripts.append(sc)
         others = lambda aid: [g for g in GRAPHS if g not in gs.get(aid, [])]
         if style == "off_reads" and scripts:
@@ -705,7 +744,7 @@ class BatchComp(Component):
         apply_est = 90
         mx, tot = max(ests + [apply_est]), sum(ests) + apply_est * len(ids)
         limit = rng.choice([1, min(ests), max(ests) - 1, mx - 3, mx, mx + 1, mx + 7, rng.randrange(95, 416), rng.randrange(95, 416),
-                            rng.randrange(95, 416), mx + min(ests), 2 * mx, 2 * mx + 5, 3 * mx, tot // 2 + mx, tot - 1, tot + 50, 32 * 1024 * 1024])
+                            rng.randrange(95, 416), rng.randrange(60, 130), rng.randrange(60, 130), rng.randrange(70, 100), mx + min(ests), 2 * mx, 2 * mx + 5, 3 * mx, tot // 2 + mx, tot - 1, tot + 50, 32 * 1024 * 1024])
         if big and rng.random() < 0.7:
             limit = max(limit, mx + rng.choice([0, 1, 50, 5000]))
         limit = max(1, int(limit))
@@ -798,6 +837,10 @@ class BatchComp(Component):
         d = self._diff("sequential", impl_out["seq"], self._model_out(model_out["seq"], table))
         if d:
             return d
+        if model_out.get("applied") is not None:
+            impl_tr = [ds for _, ds in parr["applies"]]
+            if impl_tr != model_out["applied"]:
+                return f"apply_changes call trace (delta batches in call order): impl={parr['applies']} model={model_out['applied']}"
         if model_out["contract"] != contract_ok(case, parr["computed"]):
             return f"contract classification: lean={model_out['contract']} harness={contract_ok(case, parr['computed'])}"
         return None
@@ -866,6 +909,8 @@ class BatchComp(Component):
         if not par_on:
             res.append(("gate_off_runs_every_task_sequentially", parr["computed"] == [list(t) for t in case["tasks"]] and len(parr["lines"]) == len(case["tasks"]),
                         f"parallel gate is off (enabled={case['enabled']} agents={case['agents_flag']} max_workers={case['mw']}) but executed {parr['computed']} of {case['tasks']}"))
+        d1 = apply_once(parr)
+        res.append(("each_approved_batch_reaches_apply_exactly_once", d1 is None, f"limit={case['limit']}: {d1}; apply calls = {parr['applies']}"))
         if parr["ok"] and distinct and contract_ok(case, parr["computed"]):
             d = BatchComp._diff("batch vs sequential loop", parr, seq)
             res.append(("batch_bytes_equal_sequential_loop", d is None, d or ""))
@@ -920,6 +965,8 @@ class BatchComp(Component):
             t.add("turn_id:negative")
         if case.get("perf_enabled", True) is not True:
             t.add("perf_enabled_off_or_absent")
+        if any(script_of(case, a, x).get("reuse") and len(script_of(case, a, x)["logs"]) > 1 for a, x in parr["computed"]):
+            t.add("payload_dict_reused_across_emits")
         if case["perm"] != sorted(case["perm"]):
             t.add("finish_order_permuted")
         if [a for a, _ in case["tasks"]] != sorted(a for a, _ in case["tasks"]):
@@ -981,6 +1028,9 @@ class LimitSweepComp(Component):
         for limit in range(1, tot + 3, case["stride"]):
             r = run_real(dict(case, limit=limit), "par")
             d = BatchComp._diff(f"limit {limit} vs sequential loop", r, seq) if r["ok"] else None
+            a1 = apply_once(r)
+            if a1 is not None:
+                d = f"limit {limit}: {a1}" + (f"; {d}" if d else "")
             rows.append([limit, r["ok"], d, r["err"]])
             if r["ok"] and limit < tot:
                 flushes_possible += 1
@@ -998,7 +1048,7 @@ class LimitSweepComp(Component):
         if not contract_ok(case, impl_out["computed"]) or len({a for a, _ in case["tasks"]}) != len(case["tasks"]):
             return res
         res.append(("sweep_unlimited_equals_sequential", impl_out["unl_equals_seq"] is None, str(impl_out["unl_equals_seq"])))
-        bad_eq = [(l, d) for l, ok, d, _ in impl_out["rows"] if ok and d is not None]
+        bad_eq = [(l, d) for l, ok, d, _ in impl_out["rows"] if d is not None]
         res.append(("sweep_every_served_limit_equals_sequential_loop", not bad_eq, f"{bad_eq[:2]}"))
         mx = impl_out["mx"]
         bad_ok = [(l, e) for l, ok, _, e in impl_out["rows"] if not ok and mx is not None and l >= mx]
